@@ -719,7 +719,34 @@ def _register_vector_gradient_rules() -> None:
         VectorUnarySum,
         VectorExpressionSum,
     )
-    from optyx.core.matrices import QuadraticForm
+    from optyx.core.matrices import QuadraticForm, MatrixSum, FrobeniusNorm
+
+    @register_gradient(MatrixSum)
+    def gradient_matrix_sum(expr: MatrixSum, wrt: Variable) -> Expression:
+        """Gradient for matrix sum: ∂(Σ X_ij)/∂x = Σ ∂X_ij/∂x.
+
+        Elements are visited one by one, so a variable shared by several
+        entries (symmetric matrices) contributes once per entry.
+        """
+        mat = expr.matrix
+        result: Expression = Constant(0.0)
+        for i in range(mat.rows):
+            for j in range(mat.cols):
+                result = _simplify_add(result, gradient(mat[i, j], wrt))
+        return result
+
+    @register_gradient(FrobeniusNorm)
+    def gradient_frobenius_norm(expr: FrobeniusNorm, wrt: Variable) -> Expression:
+        """Gradient for Frobenius norm: ∂||X||_F/∂x = Σ (X_ij / ||X||_F) ∂X_ij/∂x."""
+        mat = expr.matrix
+        result: Expression = Constant(0.0)
+        for i in range(mat.rows):
+            for j in range(mat.cols):
+                elem = mat[i, j]
+                d_elem = gradient(elem, wrt)
+                term = _simplify_mul(_simplify_div(elem, expr), d_elem)
+                result = _simplify_add(result, term)
+        return result
 
     @register_gradient(LinearCombination)
     def gradient_linear_combination(
